@@ -95,6 +95,10 @@ impl<'a> IntoIterator for &'a Directory {
     }
 }
 
+fn invalid_data(message: &'static str) -> std::io::Error {
+    std::io::Error::new(std::io::ErrorKind::InvalidData, message)
+}
+
 /// Upper bound for the number of entries memory is reserved for up front while parsing a directory.
 const MAX_PREALLOCATED_ENTRIES: usize = 16 * 1024;
 
@@ -124,7 +128,9 @@ impl Directory {
         for _ in 0..num_entries {
             let tmp = read_varint([u64], [reader])?;
 
-            last_id += tmp;
+            last_id = last_id
+                .checked_add(tmp)
+                .ok_or_else(|| invalid_data("Tile id of a directory entry exceeds 64 bits."))?;
             entries.push(Entry {
                 tile_id: last_id,
                 length: 0,
@@ -157,9 +163,14 @@ impl Directory {
             let val = read_varint([u64], [reader])?;
 
             entries[i].offset = if i > 0 && val == 0 {
-                entries[i - 1].offset + u64::from(entries[i - 1].length)
+                entries[i - 1]
+                    .offset
+                    .checked_add(u64::from(entries[i - 1].length))
+                    .ok_or_else(|| invalid_data("Offset of a directory entry exceeds 64 bits."))?
             } else {
-                val - 1
+                val.checked_sub(1).ok_or_else(|| {
+                    invalid_data("Offset of the first directory entry must not be encoded as 0.")
+                })?
             };
         }
 
